@@ -539,6 +539,10 @@ def run(ctx):
         ctx.check(bool(ctor), "R5.7", q.replace("flow.record.base.", "") + ":constructs", "the copy is not built through the class constructor",
                   fn, "copy built by calling the record class")
 
+    # ------------------------------------------------------------------ R5.9 generated code and falsy values
+    check_generated_value_tests(ctx, "R5.9")
+
+
 
 def check_naive_utc(ctx, rule):
     prog = ctx.prog
@@ -700,6 +704,61 @@ def generated_fragments(prog, module, gen):
             consumed.add(id(x))
         out.append((n, render(text_structure(gen, e, follow=False)).replace("\t", "    ")))
     return out
+
+
+def check_generated_value_tests(ctx, rule: str) -> None:
+    """The constructor / decoder code that _generate_record_class writes for descriptors with keyword field names handles every
+    field through one generic expression (kwargs.get(k, v) / the loop variable over the positional values). Whether a value was
+    given is decided there by the dictionary default or an `is None` test - a truth test (`kwargs.get(k) or v`, `if v:`) turns
+    0, '', b'', False and empty lists into 'not given'."""
+    import textwrap
+
+    prog = ctx.prog
+    base = prog.module("flow.record.base")
+    gen = ctx.anchor_func("flow.record.base._generate_record_class")
+    ctx.rule(rule, "generated constructor/decoder code never uses a generic field value (kwargs.get(...), kwargs[...], the loop variable over the positional "
+                   "values) as a truth value: presence is decided by the dict default or `is None`")
+    n_frag = 0
+    for node, text in generated_fragments(prog, base, gen):
+        if "kwargs" not in text:
+            continue
+        code = textwrap.dedent(text).strip("\n")
+        tree = None
+        for attempt in (code, textwrap.dedent(code), "if 1:\n" + textwrap.indent(textwrap.dedent(code), " ")):
+            try:
+                tree = ast.parse(attempt)
+                break
+            except SyntaxError:
+                continue
+        if tree is None:
+            continue
+        n_frag += 1
+        loopvars = set()
+        for f in ast.walk(tree):
+            if isinstance(f, (ast.For, ast.comprehension)) and "zip" in norm(f.iter):
+                loopvars |= {x.id for x in ast.walk(f.target) if isinstance(x, ast.Name)}
+
+        def generic(e):
+            if isinstance(e, ast.Call) and norm(e.func) in ("kwargs.get", "kwargs.pop"):
+                return True
+            if isinstance(e, ast.Subscript) and norm(e.value) == "kwargs":
+                return True
+            return isinstance(e, ast.Name) and e.id in loopvars
+
+        bad = []
+        for sub in ast.walk(tree):
+            if isinstance(sub, ast.BoolOp):
+                bad += [v for v in sub.values[:-1] if generic(v)] + ([sub.values[-1]] if isinstance(sub.op, ast.And) and generic(sub.values[-1]) else [])
+            elif isinstance(sub, (ast.If, ast.IfExp, ast.While)) and generic(sub.test):
+                bad.append(sub.test)
+            elif isinstance(sub, ast.UnaryOp) and isinstance(sub.op, ast.Not) and generic(sub.operand):
+                bad.append(sub.operand)
+            elif isinstance(sub, ast.comprehension):
+                bad += [c for c in sub.ifs if generic(c)]
+        ctx.check(not bad, rule, f"_generate_record_class:generated:{text.strip()[:40]}", f"the generated code tests the truth of `{norm(bad[0]) if bad else ''}`: a field value of 0, '', b'', "
+                  "False, 0.0 or an empty list is treated as not given and becomes None (records with keyword-named fields, which readers construct by keyword)", node,
+                  "presence decided by the dict default / `is None`", key=f"{rule}:generated-code:truth-test-on-value")
+    ctx.floor(rule, "generated fragments handling generic field values", n_frag, 2)
 
 
 def _instantiate(fragment: str) -> str:
